@@ -503,7 +503,15 @@ impl ClusterHandler for GenCommHandler<'_> {
                     // (its sessions are purged by `FailSafe::expire` itself)
                     #[cfg(feature = "case-resumption")]
                     {
-                        state.resumption.remove_for_fabric(fab_idx);
+                        if let Err(e) = state
+                            .resumption
+                            .remove_for_fabric_persist(fab_idx, ctx.kv())
+                        {
+                            error!(
+                                "Failed to persist the removal of the resumption records of fabric {}: {:?}",
+                                fab_idx, e
+                            );
+                        }
                         ctx.exchange()
                             .matter()
                             .transport()
